@@ -300,8 +300,13 @@ def main(argv):
         import traceback
         tb = traceback.format_exc()
         if getattr(run, 'harness_ok', True):
-            raise
-        C.log('check body stopped after the harness failed to build:\n' + tb[-1500:])
+            # the machinery met something it cannot evaluate (an answer of the implementation it cannot parse, a tool that died): on the
+            # unchanged tree this does not happen; after a change the property is no longer shown to hold, so it is reported as such
+            C.log('check body stopped:\n' + tb[-3000:])
+            run.violation(dict(kind='check-stopped', note='the check could not evaluate the implementation\'s behaviour (see traceback); the property is not shown to hold',
+                               traceback=tb[-3000:]), no_input=True)
+        else:
+            C.log('check body stopped after the harness failed to build:\n' + tb[-1500:])
     if not getattr(run, 'harness_ok', True):
         # search for a failing input with what does not need the harness
         try:
@@ -714,7 +719,7 @@ def c16_run_cases(run, cases, label):
         run.count(f'{label}:{i_ans.split(":")[0]}' + (':' + i_ans.split(':')[1] if i_ans.startswith('err') else ''))
         run.cov['traces_validated_against_impl'] += 1
         # oracle: documented rule on the field this case is about
-        if c.expect and i_ans.startswith('ok:'):
+        if c.expect and c.expect != 'reject' and i_ans.startswith('ok:'):
             si, fi, want = c.expect
             syncs = i_ans[i_ans.index('[') + 1:].split(';')
             got = syncs[si].rstrip(')]').split(',')[-5:][fi] if si < len(syncs) else None
@@ -2872,6 +2877,26 @@ def check_C19(run):
             no, ns = struct.unpack_from('<QQ', img, shoff + strndx * 64 + 0x18)
             ok = ok and out[0x40:no + ns] == img[0x40:no + ns] and out[:0x28] == img[:0x28]
         why = None
+        if kind == 'elf' and ok:
+            # independent structural parse: one section more; every original section's contents are found, unchanged, where the output's
+            # header for it points (the names section: its old contents followed by the new name)
+            try:
+                def esecs(b):
+                    shoff = struct.unpack_from('<Q', b, 0x28)[0]; es, n, sx = struct.unpack_from('<HHH', b, 0x3A)
+                    return n, sx, [struct.unpack_from('<QQ', b, shoff + es * i + 0x18) for i in range(n)]
+                n_i, sx_i, s_i = esecs(img); n_o, sx_o, s_o = esecs(out)
+                if n_o != n_i + 1: why = f'section count {n_i} -> {n_o}'
+                if sx_o != sx_i: why = why or f'names section index {sx_i} -> {sx_o}'
+                nm = name.encode() if isinstance(name, str) else name
+                for k_, ((oi, zi), (oo, zo)) in enumerate(zip(s_i, s_o)):
+                    want_ = img[oi:oi + zi] + ((nm + b'\0') if k_ == sx_i else b'')
+                    if out[oo:oo + zo] != want_:
+                        why = why or f'section {k_}: contents altered (at {oi}+{zi} in the input, the output header says {oo}+{zo}: {out[oo:oo + zo].hex()[:40]} instead of {want_.hex()[:40]})'
+                if why is None and n_o == n_i + 1 and out[s_o[-1][0]: s_o[-1][0] + s_o[-1][1]] != payload:
+                    why = 'the added section does not hold the payload'
+                ok = ok and why is None
+            except struct.error:
+                pass
         if kind == 'pe' and ok:
             # independent structural parse: every original section's raw data is found, unchanged, where the output's header for
             # that section points; names, virtual layout and raw sizes of the original sections are unchanged; one section was added
